@@ -1,0 +1,13 @@
+//go:build verif
+
+package memguard
+
+import (
+	"github.com/godaddy/asherah/go/securememory/internal/memcall"
+)
+
+// VerifNewSecretFactory returns a SecretFactory that issues its memory calls through mc.
+// It is only available when built with the verif build tag.
+func VerifNewSecretFactory(mc memcall.Interface) *SecretFactory {
+	return &SecretFactory{mc: mc}
+}
